@@ -75,15 +75,18 @@ def interpolate(input, coord, kernel="spline", width=2, param=1):
     coord = coord.reshape([npts, ndim])
     output = xp.zeros([batch_size, npts], dtype=input.dtype)
 
+    # width and param are real numbers: integer-typed coordinates
+    # must not truncate them.
+    dtype = np.result_type(coord.dtype, np.float32)
     if np.isscalar(param):
-        param = xp.array([param] * ndim, coord.dtype)
+        param = xp.array([param] * ndim, dtype)
     else:
-        param = xp.array(param, coord.dtype)
+        param = xp.array(param, dtype)
 
     if np.isscalar(width):
-        width = xp.array([width] * ndim, coord.dtype)
+        width = xp.array([width] * ndim, dtype)
     else:
-        width = xp.array(width, coord.dtype)
+        width = xp.array(width, dtype)
 
     if xp == np:
         _interpolate[kernel][ndim - 1](output, input, coord, width, param)
@@ -159,15 +162,18 @@ def gridding(input, coord, shape, kernel="spline", width=2, param=1):
     coord = coord.reshape([npts, ndim])
     output = xp.zeros([batch_size] + list(shape[-ndim:]), dtype=input.dtype)
 
+    # width and param are real numbers: integer-typed coordinates
+    # must not truncate them.
+    dtype = np.result_type(coord.dtype, np.float32)
     if np.isscalar(param):
-        param = xp.array([param] * ndim, coord.dtype)
+        param = xp.array([param] * ndim, dtype)
     else:
-        param = xp.array(param, coord.dtype)
+        param = xp.array(param, dtype)
 
     if np.isscalar(width):
-        width = xp.array([width] * ndim, coord.dtype)
+        width = xp.array([width] * ndim, dtype)
     else:
-        width = xp.array(width, coord.dtype)
+        width = xp.array(width, dtype)
 
     if xp == np:
         _gridding[kernel][ndim - 1](output, input, coord, width, param)
